@@ -1,1 +1,4 @@
+import LithiumProps.C06
 import LithiumProps.C07
+import LithiumProps.C08
+import LithiumProps.C15
